@@ -84,9 +84,10 @@ pub fn k_rsdpv1_decode() {
     kani::cover!(tag.revision() == 2 && tag.rsdt_address() == 0x000e_0000);
 }
 
-// ---- C04: v1 checksum validity <=> sum of the 20 RSDP bytes == 0 (mod 256)
+// ---- C04: v1 checksum validity <=> sum of the 20 RSDP bytes == 0 (mod 256).  The unwinding bound covers a
+// scan of the whole padded struct, so a sum over too many bytes fails the assertion rather than the bound.
 #[kani::proof]
-#[kani::unwind(22)]
+#[kani::unwind(34)]
 pub fn k_rsdpv1_checksum() {
     let bytes = AlignedBytes(kani::any::<[u8; 32]>());
     let b = &bytes.0;
@@ -170,7 +171,7 @@ pub fn k_rsdpv2_decode() {
 
 // ---- C04: v2 checksum validity for a conformant RSDP (length field == 36)
 #[kani::proof]
-#[kani::unwind(38)]
+#[kani::unwind(50)]
 pub fn k_rsdpv2_checksum_len36() {
     let bytes = AlignedBytes(kani::any::<[u8; 48]>());
     let b = &bytes.0;
